@@ -6,6 +6,7 @@ by order when their ``norm`` is the *germ norm* (0.0 iff every kept coefficient 
 from __future__ import annotations
 
 import numbers
+import os
 
 import numpy as np
 import z3
@@ -25,6 +26,7 @@ def _parts(a):
 
 class Ser:
     N = 3
+    SHIFT_DIV = False
     __slots__ = ("c",)
 
     def __init__(self, c):
@@ -100,6 +102,21 @@ class Ser:
             return NotImplemented
         if not isinstance(o, Ser):
             return Ser([a / o for a in s.c])
+        k = 0
+        if Ser.SHIFT_DIV:
+            # (valid-zero test of the divisor's low coefficients: only in problems that switch it on - one z3 query per division)
+            k = (o.lead() or (Ser.N + 1,))[0]
+        else:
+            while k <= Ser.N and _is_zero(o.c[k]):
+                k += 1
+        if 0 < k <= Ser.N and (s.lead() or (Ser.N + 1,))[0] >= k:
+            # exact division by eps^k (both operands are O(eps^k); e.g. the Newton projection of the constrained integrator
+            # divides the O(eps^2) constraint residual by the O(eps) scalar J (|t| M^-1) J_prev^T).  The quotient is known
+            # through eps^(N-k) only: the top k coefficients become *unknowns* (fresh symbols), so an obligation that depends on
+            # them cannot be discharged - it is never silently treated as zero.
+            num = Ser(list(s.c[k:]) + [_unknown(s.c[0]) for _ in range(k)])
+            den = Ser(list(o.c[k:]) + [_unknown(s.c[0]) for _ in range(k)])
+            return num * den.inv()
         return s * o.inv()
 
     def __rtruediv__(s, o):
@@ -261,6 +278,15 @@ class Ser:
 
 
 numbers.Number.register(Ser)
+
+
+_UNK = [0]
+
+
+def _unknown(like):
+    _UNK[0] += 1
+    u = SV(z3.Real(f"ser_unknown_{_UNK[0]}"))
+    return u if isinstance(like, SV) else like * 0 + u  # (dual coefficients: unknown value, tangents dropped with it)
 
 
 def _is_zero(a):
